@@ -71,6 +71,83 @@ pub struct Resp {
   /// final specifier when the loader resolves a redirect itself
   #[serde(default, skip_serializing_if = "Option::is_none")]
   pub fin: Option<String>,
+  /// the loader's cache holds outdated bytes: `Use` serves them, `Reload` serves the current ones
+  #[serde(default)]
+  pub stale: bool,
+}
+
+#[derive(Debug, Clone, Deserialize, Serialize, Default)]
+pub struct PkgVersion {
+  #[serde(default)]
+  pub yanked: bool,
+  /// "none" | "old" | "new"
+  #[serde(default = "none")]
+  pub date: String,
+  /// exports: a string or an object export name -> path
+  #[serde(default)]
+  pub exports: Value,
+  /// path ("/mod.ts") -> module id in `mods`
+  #[serde(default, deserialize_with = "de_map")]
+  pub files: IndexMap<String, String>,
+  /// "none" | "v2" | "v1": module information embedded in the version manifest
+  #[serde(default = "none")]
+  pub info: String,
+  /// paths whose content is in the loader's cache (answer CacheSetting::Only)
+  #[serde(default)]
+  pub cached: Vec<String>,
+  /// is the version manifest itself cached (prefer_cached_jsr_versions probes)
+  #[serde(default)]
+  pub meta_cached: bool,
+  /// path -> "bytes" (served bytes differ from the manifest checksum) | "nomanifest" (no manifest entry) | "badsum" (checksum without sha256- prefix)
+  #[serde(default, deserialize_with = "de_map")]
+  pub tamper: IndexMap<String, String>,
+  #[serde(default, skip_serializing_if = "Option::is_none")]
+  pub lockfile_checksum: Option<String>,
+  /// "ok" | "missing" | "err" | "garbage": how the version manifest load answers
+  #[serde(default = "okstr")]
+  pub meta: String,
+}
+fn okstr() -> String {
+  "ok".into()
+}
+
+#[derive(Debug, Clone, Deserialize, Serialize, Default)]
+pub struct Pkg {
+  #[serde(default, deserialize_with = "de_map")]
+  pub versions: IndexMap<String, PkgVersion>,
+  /// "ok" | "missing" | "err" | "garbage": how the package meta.json load answers
+  #[serde(default = "okstr")]
+  pub meta: String,
+}
+
+#[derive(Debug, Clone, Deserialize, Serialize, Default)]
+pub struct LockSpec {
+  /// module id -> "match" | "wrong"
+  #[serde(default, deserialize_with = "de_map")]
+  pub remote: IndexMap<String, String>,
+  /// "name@version" -> "match" | "wrong"
+  #[serde(default, deserialize_with = "de_map")]
+  pub pkg: IndexMap<String, String>,
+  /// jsr requirement ("@s/a@1") -> version seeded through fill_from_lockfile
+  #[serde(default, deserialize_with = "de_map")]
+  pub reqs: IndexMap<String, String>,
+  #[serde(default)]
+  pub enabled: bool,
+}
+
+#[derive(Debug, Clone, Deserialize, Serialize, Default)]
+pub struct WorldOpts {
+  #[serde(default)]
+  pub prefer_cached: bool,
+  /// newest dependency date cutoff in force (2025-01-01)
+  #[serde(default)]
+  pub cutoff: bool,
+  #[serde(default)]
+  pub exclude_pkgs: Vec<String>,
+  #[serde(default)]
+  pub exclude_prefixes: Vec<String>,
+  #[serde(default)]
+  pub passthrough_jsr: bool,
 }
 
 #[derive(Debug, Clone, Deserialize, Serialize)]
@@ -82,10 +159,25 @@ pub struct World {
   pub ext: IndexMap<String, String>,
   #[serde(deserialize_with = "de_map")]
   pub sch: IndexMap<String, String>,
+  /// explicit URL of a module id (registry files)
+  #[serde(default, deserialize_with = "de_map")]
+  pub urls: IndexMap<String, String>,
+  #[serde(default, deserialize_with = "de_map")]
+  pub registry: IndexMap<String, Pkg>,
+  #[serde(default)]
+  pub lock: LockSpec,
+  #[serde(default)]
+  pub opts: WorldOpts,
 }
 
 impl World {
   pub fn url_of(&self, id: &str) -> String {
+    if let Some(u) = self.urls.get(id) {
+      return u.clone();
+    }
+    if let Some(raw) = id.strip_prefix("raw:") {
+      return raw.to_string();
+    }
     let ext = self.ext.get(id).map(|s| s.as_str()).unwrap_or("ts");
     let sch = self.sch.get(id).map(|s| s.as_str()).unwrap_or("file");
     let file = match ext {
@@ -111,13 +203,16 @@ impl World {
         return id.clone();
       }
     }
-    format!("?{url}")
+    url.to_string()
   }
 
   /// text used in module `referrer` to import `target` under spelling `sp`
   pub fn text_for(&self, referrer: &str, target: &str, sp: &str) -> String {
     if target == "!bad" {
       return "bad-specifier".to_string();
+    }
+    if let Some(raw) = target.strip_prefix("raw:") {
+      return raw.to_string();
     }
     let r = self.url_of(referrer);
     let t = self.url_of(target);
@@ -144,7 +239,7 @@ impl World {
         }
       }
     }
-    format!("?{text}")
+    format!("raw:{text}#0")
   }
 
   pub fn render(&self, id: &str) -> String {
